@@ -206,7 +206,7 @@ def make_programs(pid, tier, rng):
     sets = input_sets(rng, thorough)
     lim = None if thorough else 24
     for kind in kinds_for(pid):
-        for (name, S, small) in sets:
+        for si, (name, S, small) in enumerate(sets):
             # large shapes are expensive for the Re-Pair / FM-index builders: thin them in quick
             if not thorough and not small and kind in ("FMINDEX", "XBW") and len(S) > 30:
                 continue
@@ -218,6 +218,10 @@ def make_programs(pid, tier, rng):
             rich = thorough or (pid == "C12")
             grid = G.param_grid(kind, S, rich and (small or thorough))
             if not thorough and pid != "C12":
+                # the quick tier takes one or two parameter vectors per input, rotating through the grid from input to
+                # input so that every vector (e.g. the RRR bitmaps of FMINDEX) is used on some inputs
+                k = si % len(grid)
+                grid = grid[k:] + grid[:k]
                 grid = grid[:2] if small else grid[:1]
             if pid == "C12" and kind in G.FC:
                 grid = grid + [G.P(bucket=0), G.P(bucket=1)]          # clamp to 2
@@ -246,6 +250,15 @@ def make_programs(pid, tier, rng):
                     progs += obj_programs(pid, kind, par, name, S, "iters", fn)
                 elif pid == "C15":
                     progs += obj_programs(pid, kind, par, name, S, "meta", lambda h, its: G.sec_meta(h), all_loads=True)
+                    if kind not in G.SAVE_ONLY_WHEN_BUILT:
+                        # metadata must survive any number of save / load generations, not only the first
+                        via, opt = G.load_variants(kind)[0]
+                        p = G.Prog("C15|%s|%s|%s|generations|loaded" % (kind, partag(par, kind), name))
+                        p.lines = [G.build_line(1, kind, par, S)] + G.sec_meta(1)
+                        for g in (1, 2, 3):
+                            p.lines += ["S %d %d" % (g, g), "CAT %d %d" % (g, g), G.load_line(via, kind, g, g + 1, opt)] + G.sec_meta(g + 1)
+                        p.lines += ["D 4", "D 3", "D 2", "D 1"]
+                        progs.append(p)
                 elif pid == "C16":
                     progs += obj_programs(pid, kind, par, name, S, "unsupported",
                                           lambda h, its: G.sec_unsupported(h, kind, par, S, its) + G.sec_members(h, S, rng, 6))
@@ -264,10 +277,14 @@ def make_programs(pid, tier, rng):
                             o += G.sec_table(h, S, its)
                         return o
                     progs += obj_programs(pid, kind, par, name, S, "battery", fn, all_loads=(pid != "C07" and not big))
+                    if pid == "C07" and not big:
+                        progs += alias_programs(pid, kind, par, name, S, rng)
                 elif pid == "C08":
                     progs += c08_programs(kind, par, name, S, rng)
                 elif pid == "C14":
                     progs += c14_programs(kind, par, name, S, rng, thorough)
+                    if not big:
+                        progs += alias_programs(pid, kind, par, name, S, rng)
     if pid == "C06":
         progs += concat_programs(rng, thorough)
     if pid == "C16":
@@ -316,6 +333,30 @@ def c08_programs(kind, par, name, S, rng):
     return progs
 
 
+def alias_programs(focus, kind, par, name, S, rng):
+    """an object and the object loaded from its image are independent: destroying either one must leave the other
+    fully usable (no shared tables, no process-wide state freed with the copy)"""
+    pt = partag(par, kind)
+    progs = []
+    via, opt = G.load_variants(kind)[0]
+
+    def battery(h, its):
+        o = G.sec_meta(h) + G.sec_members(h, S, rng, 8) + G.sec_absent(h, S, rng, 3)
+        if kind in G.PREFIX:
+            o += G.sec_prefix(h, S, its, rng, 2)
+        if G.substr_capable(kind, par):
+            o += G.sec_substr(h, S, its, rng, 2, minlen=2 if kind == "XBW" else 1)
+        return o
+    if kind not in G.SAVE_ONLY_WHEN_BUILT:
+        p = G.Prog("%s|%s|%s|%s|destroycopy|built" % (focus, kind, pt, name))
+        p.lines = [G.build_line(1, kind, par, S), "S 1 1", "CAT 1 1", G.load_line(via, kind, 1, 2, opt), "L 2 %s" % G.hx(S[0]), "D 2"] + battery(1, G.Its()) + ["D 1"]
+        progs.append(p)
+    p = G.Prog("%s|%s|%s|%s|destroyorig|loaded" % (focus, kind, pt, name))
+    p.lines = [G.build_line(1, kind, par, S), "S 1 1", "CAT 1 1", G.load_line(via, kind, 1, 2, opt), "D 1"] + battery(2, G.Its()) + ["D 2"]
+    progs.append(p)
+    return progs
+
+
 def c14_programs(kind, par, name, S, rng, thorough):
     """random histories: repeated and failed look-ups, several iterators drained in interleaved order,
     queries between next calls, the same battery before and after"""
@@ -354,7 +395,8 @@ def c14_programs(kind, par, name, S, rng, thorough):
                     open_its.append((it, p.lines[-1][:2]))
                 elif c < 0.72 and G.substr_capable(kind, par):
                     it = its.new()
-                    pat = rng.choice(G.substr_patterns(S, rng, 8))
+                    pats = [x for x in G.substr_patterns(S, rng, 8) if len(x) >= (2 if kind == "XBW" else 1)] or [S[0] + b"a"]
+                    pat = rng.choice(pats)
                     p.lines.append(("LS %d %d %s" if rng.random() < 0.5 else "ES %d %d %s") % (h, it, G.hx(pat)))
                     open_its.append((it, p.lines[-1][:2]))
                 elif c < 0.78 and kind != "XBW":
@@ -583,6 +625,8 @@ def relevant(pid, b, focus_faults=True):
     if b["ev"] in ("crash", "timeout"):
         return True            # every call of a campaign belongs to its property: not returning violates it
     if b["ev"] == "memerr":
+        if pid == "C16":                        # "fails safe": a memory error inside an operation the kind does not provide
+            return (b.get("during") or "").split(" ")[0] in ("LP", "EP", "LS", "ES", "LR", "ER", "ET", "LG", "LK", "LT")
         return pid in ("C07", "C02", "C04")     # the properties that speak about memory
     return False
 
@@ -800,8 +844,8 @@ def run(pid, tier):
         bad, stats = campaign(progs, variant, work, pid, tmo=tmo)
         extra = {}
         bad, extra["timeouts_not_repeated"] = confirm_timeouts(bad, work, variant, pid)
-        if pid in ("C02", "C04"):
-            # "without touching memory outside the dictionary": the same programs on the ASan variant
+        if pid in ("C02", "C04", "C16"):
+            # "without touching memory outside the dictionary" / "fails safe": the same programs on the ASan variant
             sub = [p for i, p in enumerate(progs) if i % (1 if tier == "thorough" else 3) == 0]
             bad2, st2 = campaign(sub, "asan", work, pid + "asan", tmo=tmo)
             bad += [b for b in bad2 if b["ev"] == "memerr"]
@@ -851,6 +895,11 @@ def run(pid, tier):
     resolve_crash_sites(rel, work)
     if pid == "C07":
         rel, extra["memalloc_override_only"] = confirm_memalloc(rel, work)
+    if os.environ.get("VERIF_DUMP_KNOWN"):
+        for b in rel:
+            sg = signature(b)
+            f = vlib.match_finding(V.findings, pid, sg)
+            vlib.dump_known(f["id"] if f else "-", pid, sg)
     seen = {}
     for b in rel:
         sig = signature(b)
